@@ -1,0 +1,94 @@
+//go:build verif
+
+// Contracts for C26: READDIR / READDIRPLUS paging and reply size (nfs_proc_dir.go, operations.go).
+// Checked by /verif/govc (comment-only file).
+//
+// The handlers page over the slice "entries" the operation layer returns. What is proved for every call:
+//   - every entry emitted is entries[i] for the loop index i: its fileid word is entries[i].attrs.FileId, its name
+//     is path.Base(entries[i].path) and its cookie is i+1 (call-site obligations on the three encoder calls);
+//   - the entries emitted are exactly those with index cookie, cookie+1, ... up to the loop's stopping point
+//     (counter invariant), eof is set iff the loop ran to the end of the slice, and a reply that stops early holds
+//     at least one entry - so following the returned cookies visits every index once and ends with eof;
+//   - the encoded result fits the client's count / maxcount unless it holds a single entry (known finding
+//     C26-toosmall: the server sends one entry instead of NFS3ERR_TOOSMALL).
+package absnfs
+
+// every node of a listing is a node with attributes
+//@ specdef listed(ns []*NFSNode) bool = forall(a, off(ns), off(ns) + len(ns), allocated(absidx(ns, a)) && absidx(ns, a).attrs != nil, absidx(ns, a))
+// bytes of one READDIR entry3 / READDIRPLUS entryplus3 with an 8-byte handle and attributes
+// the directory cache, when there is one, is a well-formed cache with its own LRU list
+//@ specdef dirCacheApart(s *AbsfsNFS) bool = s.dirCache == nil || (dcInv(s.dirCache) && s.dirCache.accessList != s.attrCache.accessList)
+//@ specdef entry3Size(name string) mathint = 4 + 8 + 4 + roundup4(len(name)) + 8
+//@ specdef entryplus3Size(name string) mathint = entry3Size(name) + 88 + 16
+
+//@ also AbsfsNFS.LookupWithContext
+//@ requires acInv(s.attrCache)
+//@ ensures [cache-inv] {C26, C04} acInv(s.attrCache) && s.attrCache == old(s.attrCache)
+//@ ensures [node-with-attrs] {C26, C04} isnil(result1) ==> result0 != nil && result0.attrs != nil
+// a lookup builds a new node: the nodes that existed before keep their path and their attribute record
+//@ ensures [existing-nodes-untouched] {C26, C04} forall(n, *NFSNode, old(allocated(n)) ==> n.attrs == old(n.attrs) && n.path == old(n.path))
+//@ also AbsfsNFS.Lookup
+//@ requires acInv(s.attrCache)
+//@ ensures [cache-inv] {C26, C04} acInv(s.attrCache) && s.attrCache == old(s.attrCache)
+//@ ensures [node-with-attrs] {C26, C04} isnil(result1) ==> result0 != nil && result0.attrs != nil
+// a lookup builds a new node: the nodes that existed before keep their path and their attribute record
+//@ ensures [existing-nodes-untouched] {C26, C04} forall(n, *NFSNode, old(allocated(n)) ==> n.attrs == old(n.attrs) && n.path == old(n.path))
+//@ also AbsfsNFS.ReadDirWithContext
+//@ requires acInv(s.attrCache) && dirCacheApart(s)
+//@ ensures [cache-inv] {C26, C04} acInv(s.attrCache) && s.attrCache == old(s.attrCache)
+//@ ensures [listed] {C26} isnil(result1) ==> listed(result0)
+//@ loop 1 invariant {C26} listed(nodes) && acInv(s.attrCache) && s.attrCache == old(s.attrCache)
+//@ loop 2 invariant {C26} listed(nodes) && acInv(s.attrCache) && s.attrCache == old(s.attrCache)
+//@ also AbsfsNFS.ReadDir
+//@ requires acInv(s.attrCache) && dirCacheApart(s)
+//@ ensures [cache-inv] {C26, C04} acInv(s.attrCache) && s.attrCache == old(s.attrCache)
+//@ ensures [listed] {C26} isnil(result1) ==> listed(result0)
+//@ also AbsfsNFS.ReadDirPlus
+//@ requires acInv(s.attrCache) && dirCacheApart(s)
+//@ ensures [cache-inv] {C26, C04} acInv(s.attrCache) && s.attrCache == old(s.attrCache)
+//@ ensures [listed] {C26} isnil(result1) ==> listed(result0)
+//@ loop 1 invariant {C26} listed(nodes) && acInv(s.attrCache) && s.attrCache == old(s.attrCache)
+
+//@ also NFSProcedureHandler.handleReaddir
+// what is written for an entry is that entry's fileid, name and index+1
+//@ callassert xdrEncodeUint64#1 : [entry-fileid] {C26} entry == entries[i] && arg1 == entries[i].attrs.FileId
+//@ callassert xdrEncodeString : [entry-name] {C26} entry == entries[i] && arg1 == ite(entries[i].path == "/", "/", pbase(entries[i].path))
+//@ callassert xdrEncodeUint64#2 : [entry-cookie] {C26} arg1 == i + 1
+//@ loop 1 invariant {C26} ranged == entries && 0 <= rangeindex + 1 && rangeindex + 1 <= len(entries) && listed(entries) && !reachedLimit
+//@ loop 1 invariant {C26} entryCount == ite(rangeindex + 1 > cookie, rangeindex + 1 - cookie, 0)
+// (the upper bound keeps the handler's own int arithmetic on buf.Len() away from overflow)
+//@ loop 1 invariant {C26} wlen[addr(buf)] >= 100 && (entryCount == 0 ==> wlen[addr(buf)] == 100) && wlen[addr(buf)] <= 8589934592 && (entryCount <= 1 || wlen[addr(buf)] + 8 <= count)
+// at the point the reply is taken from the buffer (the only buf.Bytes() of the handler):
+//@ callassert bytes.Buffer.Bytes : [eof-iff-listing-exhausted] {C26} wlen[addr(buf)] >= 108 && be32(wdata[addr(buf)], wlen[addr(buf)] - 8) == 0 && (be32(wdata[addr(buf)], wlen[addr(buf)] - 4) == 1 ==> entryCount == ite(len(entries) > cookie, len(entries) - cookie, 0)) && (be32(wdata[addr(buf)], wlen[addr(buf)] - 4) != 1 ==> be32(wdata[addr(buf)], wlen[addr(buf)] - 4) == 0 && entryCount >= 1 && cookie + entryCount < len(entries))
+//@ callassert bytes.Buffer.Bytes : [fits-count-unless-single-entry] {C26} wlen[addr(buf)] <= count || entryCount <= 1
+//@ callassert bytes.Buffer.Bytes : [kf-fits-count-or-toosmall] {C26} wlen[addr(buf)] <= count
+
+//@ also NFSProcedureHandler.handleReaddirplus
+// what is written for an entry is that entry's fileid, name and index+1
+//@ callassert xdrEncodeUint64#1 : [entry-fileid] {C26} entry == entries[i] && arg1 == entries[i].attrs.FileId
+//@ callassert xdrEncodeString : [entry-name] {C26} entry == entries[i] && arg1 == ite(entries[i].path == "/", "/", pbase(entries[i].path))
+//@ callassert xdrEncodeUint64#2 : [entry-cookie] {C26} arg1 == i + 1
+//@ callassert FileHandleMap.Allocate : [entry-handle] {C26} valof(arg1) == entries[i]
+//@ loop 1 invariant {C26} ranged == entries && 0 <= rangeindex + 1 && rangeindex + 1 <= len(entries) && listed(entries) && !reachedLimit
+//@ loop 1 invariant {C26} entryCount == ite(rangeindex + 1 > cookie, rangeindex + 1 - cookie, 0)
+// (the upper bound keeps the handler's own int arithmetic on buf.Len() away from overflow)
+//@ loop 1 invariant {C26} wlen[addr(buf)] >= 100 && (entryCount == 0 ==> wlen[addr(buf)] == 100) && wlen[addr(buf)] <= 8589934592 && (entryCount <= 1 || wlen[addr(buf)] + 8 <= maxCount)
+// at the point the reply is taken from the buffer (the only buf.Bytes() of the handler):
+//@ callassert bytes.Buffer.Bytes : [eof-iff-listing-exhausted] {C26} wlen[addr(buf)] >= 108 && be32(wdata[addr(buf)], wlen[addr(buf)] - 8) == 0 && (be32(wdata[addr(buf)], wlen[addr(buf)] - 4) == 1 ==> entryCount == ite(len(entries) > cookie, len(entries) - cookie, 0)) && (be32(wdata[addr(buf)], wlen[addr(buf)] - 4) != 1 ==> be32(wdata[addr(buf)], wlen[addr(buf)] - 4) == 0 && entryCount >= 1 && cookie + entryCount < len(entries))
+//@ callassert bytes.Buffer.Bytes : [fits-maxcount-unless-single-entry] {C26} wlen[addr(buf)] <= maxCount || entryCount <= 1
+//@ callassert bytes.Buffer.Bytes : [kf-fits-maxcount-or-toosmall] {C26} wlen[addr(buf)] <= maxCount
+
+// ---- the directory cache leaves the attribute cache alone (separate LRU lists, separate maps)
+//@ func DirCache.Get
+//@ prop C26 C21
+//@ requires dcInv(c)
+//@ modifies mapof(c.entries), lmem, lrank, llen, CachedDirEntry.listElement, clock, locks, c.hits, c.misses, extstate
+//@ ensures [other-lists] listFrame(c.accessList)
+//@ ensures [inv-shape] dcShape(c) && c.accessList == old(c.accessList) && c.entries == old(c.entries)
+//@ ensures [inv-fwd] dcFwd(c)
+//@ ensures [inv-back] dcBack(c)
+//@ ensures [inv-count] dcCount(c)
+//@ ensures [capacity] len(c.entries) <= c.maxEntries
+//@ ensures [miss-nil] !result1 ==> len(result0) == 0
+//@ also DirCache.Put
+//@ ensures [other-lists] {C26, C21} listFrame(c.accessList)
